@@ -34,6 +34,8 @@ WALL = {"quick": 300, "thorough": 1500}
 IMMUTABLE = (str, bytes, int, float, bool, type(None))
 HOSTLIBS = ["io", "os", "package", "debug", "python", "_G", "string", "table", "math", "coroutine", "jit", "ffi", "bit", "utf8"]
 
+JSON_PROBES = ['{"1": {"k": "v"}, "a": [1, 2, {"b": 1}], "2": [1], "x": {"3": {"y": [4]}}}', '[{"1": {"k": [1]}}, [2, {"5": {}}]]',
+               '{"10": {"1": {"2": {"k": "v"}}}}']
 PROBE = "local e = {}\nfunction e.f(frame) return 'probe-ok' end\nfunction e.g(frame) return frame:preprocess('{{#invoke:probe|f|n}}') end\nreturn e"
 
 
@@ -76,6 +78,12 @@ class Capture:
         tmpl = self.ctx.NAMESPACE_DATA["Template"]["name"]
         self.ctx.add_page(mod + ":probe", 828, PROBE, model="Scribunto")
         self.ctx.add_page(mod + ":dat", 828, "return {a = 1, t = {b = 2}}", model="Scribunto")
+        # a chunk that hands back the environment it runs in: whatever loader returns a chunk for it is a
+        # capability (the chunk's globals become reachable by calling it)
+        for i in range(40):
+            # (one unused name per loader-like capability: a chunk that was compiled before keeps its environment)
+            self.ctx.add_page(mod + ":envprobe%s" % ("" if i == 0 else i), 828, "return {G = _G, io = io, os = os, pkg = package, "
+                              "ld = loadstring, dbg = debug, py = python, gf = getfenv, rq = require}", model="Scribunto")
         self.ctx.add_page(tmpl + ":w", 10, "{{#invoke:probe|f|{{{1|}}}|k=v}}")
         self.ctx.add_page(tmpl + ":w2", 10, "{{#invoke:probe|g|{{{1|}}}}}")
         self.ctx.start_page("Pg")
@@ -146,7 +154,8 @@ end''')(lua.table_from(forb))
         except Exception:
             pass
     names |= {"mw", "mw_text", "mw_title", "libraryUtil", "ustring:ustring", "_sandbox_phase1", "_sandbox_phase2", "../_sandbox_phase1",
-              "Module:probe", "strict", "bit32", "luabit/bit", "mw.uri"}
+              "Module:probe", "strict", "bit32", "luabit/bit", "mw.uri", "Module:envprobe", "envprobe",
+              ctx.NAMESPACE_DATA["Module"]["name"] + ":envprobe"}
     names = sorted(names)
     viol = []
     stats = collections.Counter()
@@ -205,7 +214,9 @@ end''')(lua.table_from(forb))
         elif kind == "function" and depth < 2:
             last = path.rsplit(".", 1)[-1]
             if last in CAPS1 or ".loaders." in path:
-                for nm in names:
+                stats["loader-like-functions"] += 1
+                fresh_name = ctx.NAMESPACE_DATA["Module"]["name"] + ":envprobe%d" % min(39, stats["loader-like-functions"])
+                for nm in names + [fresh_name]:
                     stats["capability-calls"] += 1
                     try:
                         r = helpers.call1(o, nm)
@@ -214,6 +225,16 @@ end''')(lua.table_from(forb))
                     if isinstance(r, tuple) and r and r[0]:
                         for x in r[1:]:
                             push(x, "%s(%r)" % (path, nm), last + "(name)", depth + 1)
+                            if lupa.lua_type(x) == "function":
+                                # a loader handed out a compiled chunk: running it exposes the chunk's globals
+                                stats["capability-calls"] += 1
+                                try:
+                                    r2 = helpers.call0(x)
+                                    if isinstance(r2, tuple) and r2 and r2[0]:
+                                        for y in r2[1:]:
+                                            push(y, "%s(%r)()" % (path, nm), last + "(name)()", depth + 1)
+                                except Exception:
+                                    pass
             elif last in ("getCurrentFrame", "_python_top_env", "current_frame_python", "getContentLanguage", "getLanguage"):
                 stats["capability-calls"] += 1
                 try:
@@ -223,6 +244,18 @@ end''')(lua.table_from(forb))
                             push(x, path + "()", last + "()", depth + 1)
                 except Exception:
                     pass
+            elif last in ("jsonDecode", "mw_jsondecode_python", "loadJsonData", "_new_loadJsonData"):
+                # decoders hand structured values to Lua: they must arrive as Lua tables, never as live Python containers
+                for js in JSON_PROBES:
+                    for flags in (0, 1):
+                        stats["capability-calls"] += 1
+                        try:
+                            r = helpers.callm(o, js, flags)
+                            if isinstance(r, tuple) and r and r[0]:
+                                for x in r[1:]:
+                                    push(x, "%s(%r,%d)" % (path, js[:30], flags), last + "(json)", depth + 1)
+                        except Exception:
+                            pass
             elif last in ("getParent", "newChild") and frame is not None:
                 stats["capability-calls"] += 1
                 try:
@@ -305,6 +338,8 @@ end
     add("frame-args-tuple", "local o = rawget(frame.args, '_orig') if o then for k, v in pairs(o) do if type(v) == 'userdata' then pcall(function() out = out .. damage(v.count, 'tp') end) end end end")
     add("top-env", "if _python_top_env then local t = _python_top_env() out = out .. damage(t, 'te') pcall(function() out = out .. damage(_python_top_env.args[0], 'tea') end) pcall(function() out = out .. damage(_python_append_env.args[0], 'aea') end) end")
     add("loader-traversal", "for _, n in ipairs({'../../../../etc/passwd', '..:..:_sandbox_phase1', '/etc/passwd', '_sandbox_phase1', 'Module:../x'}) do local ok, m = pcall(require, n) if ok and m then out = out .. 'loaded:' .. n .. ';' out = out .. damage(m, 'lt') end end")
+    add("loader-chunk", "for _, L in ipairs({_new_loader, package and package.loaders and package.loaders[2]}) do for _, n in ipairs({'%s:envprobe', 'envprobe'}) do local ok, f = pcall(L, n) if ok and type(f) == 'function' then local ok2, t = pcall(f) if ok2 and type(t) == 'table' then for k, v in pairs(t) do out = out .. damage(v, 'lc' .. k) end end end end end" % mod_ns)
+    add("jsondecode-python-objects", "local ok, t = pcall(mw.text.jsonDecode, '{\\\"1\\\": {\\\"k\\\": \\\"v\\\"}, \\\"2\\\": [1,2]}') if ok and type(t) == 'table' then for k, v in pairs(t) do if type(v) == 'userdata' then out = out .. 'pyobj:' .. tostring(k) .. ';' pcall(function() v.clear() out = out .. 'mutated;' end) pcall(function() out = out .. damage(v.__class__, 'jd') end) end end end")
     add("loaddata-env", "local ok, d = pcall(mw.loadData, '%s:dat') if ok then out = out .. damage(getmetatable(d), 'ldm') end" % mod_ns)
     add("debug-lib", "if debug then for _, n in ipairs({'getinfo','getupvalue','getregistry','sethook','getfenv','setmetatable','getmetatable'}) do if debug[n] then out = out .. 'debug.' .. n .. ';' end end pcall(function() local r = debug.getregistry() out = out .. damage(r, 'reg') end) end")
     add("tostring-userdata", "for k, v in pairs(_G) do if type(v) == 'userdata' then pcall(function() local s = tostring(v) end) pcall(function() local c = mw.clone(v) out = out .. damage(c, 'cl') end) end end")
